@@ -87,6 +87,8 @@ def _leaves(v):
         l1, ok1 = _leaves(v[2])
         l2, ok2 = _leaves(v[3])
         return l1 + l2, ok1 and ok2
+    if v == ("f", 0.0):
+        return [], True            # the neutral start value of Iterator::sum
     return [], False
 
 
@@ -146,6 +148,8 @@ def eval_depth_sort(prog, body):
                 return rel if ka == "t" else FLIP[rel]
 
             def orc(op, a, b, sign=sign):
+                if all(isinstance(x, tuple) and x[0] == "symop" and x[1] == "BitNot" for x in (a, b)):
+                    return orc(op, b[2], a[2])     # !x < !y  <=>  y < x on unsigned integers
                 if is_bits(a) and is_bits(b):
                     fa, fb = a[2], b[2]
                     r = rel_of(fa, fb)
@@ -207,7 +211,8 @@ def eval_depth_sort(prog, body):
             def m_to_bits(it, args, callee, depth):
                 x = A.deref_all(it, args[0])
                 return ("symop", "to_bits", x, None)
-            it = A.Interp(prog, oracle=orc, models={"sort_unstable_by_key": m_sort_key, "sort_by_key": m_sort_key, "sort_by_cached_key": m_sort_key,
+            from . import symalg
+            it = A.Interp(prog, oracle=orc, models={**symalg.ALG_MODELS, "sort_unstable_by_key": m_sort_key, "sort_by_key": m_sort_key, "sort_by_cached_key": m_sort_key,
                                                      "sort_unstable_by": m_sort, "sort_by": m_sort, "f32>::to_bits": m_to_bits})
             d = ("adt", "retrofire_core::render::ctx::DepthSort", mode, [])
             try:
